@@ -19,7 +19,7 @@ be left intact."""
 import copy
 import itertools
 
-EPS = ("Deserializer", "deserialize_structure", "field", "array", "map")
+EPS = ("Deserializer", "deserialize_structure", "field", "array", "map", "subclass", "optional")
 KEEP = (None, True, False)
 TRUSTED = (False, True)
 CAMEL = (False, True)
@@ -42,9 +42,16 @@ def gen_spec(rnd, doc, latest):
     latest_keys = [k for k in latest if k != "version" and ident(k)]
     old_only = [k for k in doc if k != "version" and k not in latest and ident(k)]
     r = rnd.random()
-    if r < 0.15:
+    if r < 0.12:
+        # every declared field a typed scalar: the class is eligible for direct_trusted_mapping
+        scal = [k for k in latest_keys if type(latest[k]) in (bool, int, float, str)]
+        chosen = [k for k in scal if rnd.random() < 0.7]
+        return {"fields": [[k, typed_kind(latest[k], rnd)] for k in chosen],
+                "additional": rnd.choice([None, None, True, False]),
+                "required": [k for k in chosen if rnd.random() < 0.4], "immutable": False}
+    if r < 0.24:
         chosen = list(latest_keys)
-    elif r < 0.22:
+    elif r < 0.30:
         chosen = []
     else:
         chosen = [k for k in latest_keys if rnd.random() < 0.55]
@@ -59,8 +66,12 @@ def gen_spec(rnd, doc, latest):
             kind = typed_kind(latest[k], rnd)
         fields.append([k, kind])
     required = [k for k, _ in fields if k in latest and latest[k] is not None and rnd.random() < 0.4]
-    return {"fields": fields, "additional": rnd.choice([None, None, True, False]), "required": required,
+    spec = {"fields": fields, "additional": rnd.choice([None, None, True, False]), "required": required,
             "immutable": rnd.random() < 0.12}
+    if rnd.random() < 0.15:
+        # non-default global setting: non-field keys are handed to the constructor even when the class forbids them
+        spec["defaults"] = {"ignore_invalid_additional_properties_in_deserialization": False}
+    return spec
 
 
 def typed_kind(v, rnd):
@@ -83,8 +94,8 @@ def typed_kind(v, rnd):
     return "any"
 
 
-LATTICE_COMBOS = [(ep, ku, tr, cc) for ep in ("Deserializer", "deserialize_structure", "field")
-                  for ku in KEEP for tr in TRUSTED for cc in CAMEL]
+LATTICE_COMBOS = [(ep, ku, tr, False) for ep in ("Deserializer", "deserialize_structure", "field", "subclass")
+                  for ku in KEEP for tr in TRUSTED] + [("Deserializer", ku, False, True) for ku in KEEP]
 
 
 def lattice_specs(doc, latest):
@@ -96,16 +107,21 @@ def lattice_specs(doc, latest):
     for sh in shapes:
         for add in (None, False):
             out.append({"fields": [[k, "any"] for k in sh], "additional": add, "required": [], "immutable": False})
+    scal = [k for k in latest_keys if type(latest[k]) in (bool, int, float, str)]
+    out.append({"fields": [[k, typed_kind(latest[k], None)] for k in scal[:2]], "additional": None, "required": [],
+                "immutable": False})                       # eligible for direct_trusted_mapping
+    out.append({"fields": [[k, "any"] for k in latest_keys], "additional": False, "required": [], "immutable": False,
+                "defaults": {"ignore_invalid_additional_properties_in_deserialization": False}})
     return out
 
 
 def build_classes(spec, maps):
     """-> dict of entry-point name -> class (V itself for the top-level entry points)."""
     from typedpy import (Versioned, Structure, ImmutableStructure, Anything, Array, Map, String, Integer, Float,
-                         Boolean)
+                         Boolean, AnyOf, NoneField)
     ns = {"Versioned": Versioned, "Structure": Structure, "ImmutableStructure": ImmutableStructure,
           "Anything": Anything, "Array": Array, "Map": Map, "String": String, "Integer": Integer, "Float": Float,
-          "Boolean": Boolean, "maps": maps}
+          "Boolean": Boolean, "AnyOf": AnyOf, "NoneField": NoneField, "maps": maps}
     src = ""
     nested = 0
     decls = []
@@ -131,9 +147,16 @@ def build_classes(spec, maps):
         src += f"    {k} = {d}\n"
     src += ("class OuterF(Structure):\n    v = V\n    _required = []\n"
             "class OuterA(Structure):\n    vs = Array[V]\n    _required = []\n"
-            "class OuterM(Structure):\n    vm = Map[String, V]\n    _required = []\n")
+            "class OuterM(Structure):\n    vm = Map[String, V]\n    _required = []\n"
+            "class OuterO(Structure):\n    vo = AnyOf[V, NoneField]\n    _required = []\n"
+            )
+    if spec.get("immutable"):          # an ImmutableStructure cannot be extended: the subclass IS the class
+        src += "Sub = V\n"
+    else:                              # inherits the history: the mapping is found only through the base
+        src += f"class Sub(V):\n    zz_sub = Anything\n    _required = {spec['required']!r}\n"
     exec(src, ns)
-    return {"V": ns["V"], "field": ns["OuterF"], "array": ns["OuterA"], "map": ns["OuterM"], "src": src}
+    return {"V": ns["V"], "field": ns["OuterF"], "array": ns["OuterA"], "map": ns["OuterM"], "optional": ns["OuterO"],
+            "subclass": ns["Sub"], "src": src}
 
 
 # ------------------------------------------------------------------ running one combination
@@ -162,6 +185,8 @@ def wrap_doc(ep, doc):
         return {"vs": [doc, copy.deepcopy(doc)]}
     if ep == "map":
         return {"vm": {"k1": doc}}
+    if ep == "optional":
+        return {"vo": doc}
     return doc
 
 
@@ -173,6 +198,8 @@ def unwrap(ep, inst):
         return list(inst.vs) if getattr(inst, "vs", None) is not None else []
     if ep == "map":
         return list(inst.vm.values()) if getattr(inst, "vm", None) is not None else []
+    if ep == "optional":
+        return [inst.vo] if getattr(inst, "vo", None) is not None else []
     return [inst]
 
 
@@ -181,6 +208,8 @@ def run_one(classes, combo, doc):
     from typedpy import Deserializer, deserialize_structure
     ep, ku, tr, cc = combo
     cls = classes["V"] if ep in ("Deserializer", "deserialize_structure") else classes[ep]
+    if ep == "subclass":
+        ep = "Deserializer"
     d = wrap_doc(ep, doc)
     try:
         if ep == "deserialize_structure":
@@ -192,6 +221,13 @@ def run_one(classes, combo, doc):
         return ("ok", des.deserialize(d, keep_undefined=ku, direct_trusted_mapping=tr)), d
     except Exception as e:  # noqa
         return ("raise", type(e).__name__), d
+
+
+def _trusted(inst):
+    try:
+        return bool(inst.used_trusted_instantiation())
+    except Exception:  # noqa
+        return False
 
 
 def combo_name(combo):
@@ -226,9 +262,33 @@ def diff_kind(ep, a, b, field_names):
     return "eq-only" if canon(a[1]) == canon(b[1]) else "state"
 
 
+class _Defaults:
+    """TypedPyDefaults overridden for the duration of one class specification's runs."""
+
+    def __init__(self, overrides):
+        self.overrides = overrides or {}
+
+    def __enter__(self):
+        from typedpy.structures import TypedPyDefaults
+        self.saved = {k: getattr(TypedPyDefaults, k) for k in self.overrides}
+        for k, v in self.overrides.items():
+            setattr(TypedPyDefaults, k, v)
+
+    def __exit__(self, *a):
+        from typedpy.structures import TypedPyDefaults
+        for k, v in self.saved.items():
+            setattr(TypedPyDefaults, k, v)
+        return False
+
+
 def check(doc, maps_ast, spec, combos=None, stats=None):
     """Evaluate the deserialization clauses for one (document, history, class).
     -> (fails [(key, what, combo)], ran: bool)"""
+    with _Defaults(spec.get("defaults")):
+        return _check(doc, maps_ast, spec, combos, stats)
+
+
+def _check(doc, maps_ast, spec, combos=None, stats=None):
     base = _base()
     from typedpy.serialization.versioned_mapping import convert_dict
     fails = []
@@ -259,6 +319,8 @@ def check(doc, maps_ast, spec, combos=None, stats=None):
         b, _ = run_one(classes, combo, copy.deepcopy(latest))
         if stats is not None:
             stats("outcome:" + (a[0] if a[0] == "ok" else "raise:" + a[1]))
+            if combo[2] and a[0] == "ok" and any(_trusted(i) for i in unwrap(ep, a[1])):
+                stats("trusted-path-taken")
         if da != wrap_doc(ep, doc) or repr(da) != repr(wrap_doc(ep, doc)):
             key = f"deser-input-modified/{ep}"
             if key not in seen:
